@@ -334,6 +334,22 @@ def L_wf_encodable():
                   lambda t: z3.Implies(WFKV(t), SEROKKV(t)))
 
 
+def L_toplevel():
+    """The statement itself, for a registered dataclass instance x (an extraction result or a unit):
+    to_json(x) is a JSON object; from_json(to_json(x)) has x's type and the same to_json; binary excluded = binary leaves nulled."""
+    xv = V.DC(cn, xk)
+    tj = SX(xv, T)
+    back = DESERDC(V.ents(tj), NOCLS)                      # deserialize_extraction(json.loads(json.dumps(to_json)))
+    prem = z3.And(WF(xv), _nm(xv), INH(xv, H.HAny))
+    hk = [z3.substitute(HK(xk, k0), (k0, sv(m)), (b, T)) for m in MARKERS]
+    hkb = [z3.substitute(HK(xk, k0), (k0, sv(m))) for m in MARKERS]
+    return [(f"{PFX}statement.to_json-is-a-json-object", [z3.Implies(WF(xv), JOK(SER(xv, b)))], z3.Implies(WF(xv), z3.And(V.is_Dict(SX(xv, b)), JOK(SX(xv, b))))),
+            (f"{PFX}statement.from_json-restores", AXIOMS + hk + [RT(xv, H.HAny)],
+             z3.Implies(prem, z3.And(SX(back, T) == tj, typename(back) == cn, z3.Not(z3.Or([HASKEY(V.ents(tj), sv(m)) for m in ("_bytes", "_bytesio")]))))),
+            (f"{PFX}statement.binary-excluded", [z3.And(SER(xv, F) == SER(BINFREE(xv), T), SER(xv, F) == SER(BINFREE(xv), F))],
+             z3.And(SX(xv, F) == SX(BINFREE(xv), T), SX(xv, F) == SX(BINFREE(xv), F)))]
+
+
 def all_lemmas():
-    ls = L_json() + L_idem() + L_keys() + L_keys_members() + L_cov() + L_binary() + L_agree() + L_roundtrip() + L_lists() + L_build() + L_wf_encodable() + L_marker_collision()
+    ls = L_json() + L_idem() + L_keys() + L_keys_members() + L_cov() + L_binary() + L_agree() + L_roundtrip() + L_lists() + L_build() + L_wf_encodable() + L_toplevel() + L_marker_collision()
     return [(i, [norm(x_) for x_ in hy], norm(g)) for (i, hy, g) in ls]
